@@ -154,5 +154,5 @@ def hyp_cases(draw, tier):
 
 
 PARTS = [
-    Part("directories", run, strategy=lambda tier: hyp_cases(tier), n={"quick": 500, "thorough": 8000}),
+    Part("directories", run, strategy=lambda tier: hyp_cases(tier), n={"quick": 500, "thorough": 20000}),
 ]
